@@ -9,7 +9,7 @@ wt=/tmp/seedwt_$name
 git -C /repo worktree remove --force $wt >/dev/null 2>&1
 git -C /repo worktree add -q --detach $wt HEAD || exit 2
 (cd $wt && git apply /verif/seeded/$name/patch.diff) || { echo "$name: patch does not apply"; git -C /repo worktree remove --force $wt; exit 2; }
-out=/tmp/seedout_$name; rm -rf $out; mkdir -p $out
+out=/tmp/seedout_$name; rm -rf $out; mkdir -p $out; cp /verif/known_findings.json $out/; cp -r /verif/bounded $out/
 for p in $props; do
   /verif/bin/dvc check -p $p -tier quick -repo $wt -verif $out > $out/$p.log 2>&1
   echo "$name $p rc=$? $(grep -c '^VIOLATION' $out/$p.log) violations: $(grep -A1 '^VIOLATION' $out/$p.log | grep 'failed obligation' | head -3 | cut -c1-160 | tr '\n' ';')"
